@@ -280,7 +280,7 @@ def _op_sequences(src: int, o1: int, a1: int, o2: int, a2: int, o3: int, a3: int
     pre: 0 <= a1 < 256 and 0 <= a2 < 256 and 0 <= a3 < 256
     pre: shard_of(o1 * 5 + o2 + 1)
     pre: thorough() or o3 == -1 or (o1 == o2 and o2 == o3 and o1 != 3)
-    pre: vis_mask_in_tier(o1, a1) and vis_mask_in_tier(o2, a2) and vis_mask_in_tier(o3, a3)
+    pre: vis_mask_in_tier(o1, a1, o2) and vis_mask_in_tier(o2, a2, o2) and vis_mask_in_tier(o3, a3, o2)
     post: _
     """
     SRC = concrete_int(src, 0, len(SOURCES) - 1)
@@ -322,9 +322,11 @@ def _op_sequences(src: int, o1: int, a1: int, o2: int, a2: int, o3: int, a3: int
     return result(problem == "", len(ops) >= 2)
 
 
-def vis_mask_in_tier(o, a) -> bool:
-    if o != 3 or thorough():
+def vis_mask_in_tier(o, a, o2) -> bool:
+    if o != 3:
         return True
+    if thorough() and o2 == -1:
+        return True        # a single visibility transform: all 256 predicates
     # quick: masks with at most one bit set, plus all-hidden
     return a == 255 or a == 0 or a == 1 or a == 2 or a == 4 or a == 8 or a == 16 or a == 32 or a == 64 or a == 128
 
@@ -333,7 +335,7 @@ CONDITIONS = [
     Cond(
         name="op_sequences", fn=_op_sequences, quick=200, thorough=1200, per_path=90, shards_quick=20, shards_thorough=20,
         bound="2 source schemas (code-built with resolvers / default resolvers / type resolvers / subscription resolver / python names / defaults / descriptions / deprecations; SDL-built with registered resolvers) "
-              "x every sequence of 1..3 operations from {clone, camel-case, extend with one of 6 documents, visibility with an 8-bit predicate (quick: <= 1 bit or all)} applied to the SAME source (quick: sequences of length 3 only when all three operations are of the same kind)",
+              "x every sequence of 1..3 operations from {clone, camel-case, extend with one of 6 documents, visibility with an 8-bit predicate (all 256 for a single transform in the thorough tier; <= 1 bit or all bits inside sequences)} applied to the SAME source (quick: sequences of length 3 only when all three operations are of the same kind)",
         symbolic={"src": "choice", "o1..o3": "choice: operations", "a1..a3": "choice: extension document / visibility bits"},
         assumptions=["oracle: closed() + attribute snapshot attrs() + introspection query; 'preserved' is checked for every element the operation does not target"],
         witness={"src": 0, "o1": 0, "a1": 0, "o2": 1, "a2": 0, "o3": -1, "a3": 0},
